@@ -416,6 +416,21 @@ pub open spec fn is_min_bn(ss: Seq<ScriptStatus>, r: Option<u64>) -> bool {
 }
 #[verifier::external_body]
 pub fn vf_min_block_number(v: &[ScriptStatus]) -> (r: Option<u64>) ensures is_min_bn(v@, r) { unimplemented!() }
+// `X.iter().map(|ss| ss.block_number)`: the block numbers as an iterator; only min() / max() are modelled (assumed std semantics)
+pub struct BnIter { pub ghost src: Seq<ScriptStatus>, pub x: u8 }
+pub open spec fn is_max_bn(ss: Seq<ScriptStatus>, r: Option<u64>) -> bool {
+    (ss.len() == 0 ==> r.is_none())
+    && (ss.len() > 0 ==> r.is_some() && (exists|i: int| 0 <= i < ss.len() && (#[trigger] ss[i]).block_number == r.unwrap())
+            && (forall|i: int| 0 <= i < ss.len() ==> r.unwrap() >= (#[trigger] ss[i]).block_number))
+}
+#[verifier::external_body]
+pub fn vf_block_numbers(v: &[ScriptStatus]) -> (r: BnIter) ensures r.src == v@ { unimplemented!() }
+impl BnIter {
+    #[verifier::external_body]
+    pub fn min(self) -> (r: Option<u64>) ensures is_min_bn(self.src, r) { unimplemented!() }
+    #[verifier::external_body]
+    pub fn max(self) -> (r: Option<u64>) ensures is_max_bn(self.src, r) { unimplemented!() }
+}
 #[verifier::external_body]
 pub fn vf_min_u64(a: u64, b: u64) -> (r: u64) ensures r == (if a <= b { a } else { b }) { unimplemented!() }
 // ===== end =====
